@@ -346,8 +346,11 @@ def isqrt(ctx, w):
             probs.append('continuation guard %s, expected x0 > x1 (stop at the first non-decrease)' % g)
         # return value: x0 (the value at the start of the last iteration), truncated
         rv = None
-        if tx.finals and len(tx.finals) == 1:
-            rv = tx.finals[0][1]
+        if tx.finals:
+            # (several ways out with the same value are fine: an assertion between the loop and the return forks the path)
+            rvs = [r_ for s_, r_ in tx.finals]
+            bad_ = [r_ for r_ in rvs if r_ is None or not alg.is_zero(sp.sympify(r_) - s)]
+            rv = bad_[0] if bad_ else rvs[0]
         if rv is None or not alg.is_zero(sp.sympify(rv) - s):
             probs.append('returns %s, expected x0' % rv)
         if probs:
